@@ -40,6 +40,15 @@ pub fn draw_order(rng: &mut Rng, max: usize) -> usize {
 /// size (63..=300), whatever the tier: size thresholds (a 64-bit word, "at least 64 entries per
 /// worker") are where rewritten code goes wrong.
 pub fn draw_order_tail(rng: &mut Rng, max: usize) -> usize {
+    if rng.chance(1, 120) {
+        // "giant" inputs (callers keep them sparse and cap the quadratic operations): thresholds such as
+        // "one worker per 256 rows", 32-bit products of the order, powers of two times an odd factor
+        return if rng.chance(1, 2) {
+            *rng.pick(&[511, 512, 513, 521, 767, 768, 769, 1000, 1023, 1024, 1025, 1649, 1999, 2000])
+        } else {
+            rng.range(300, 2100)
+        };
+    }
     if rng.chance(1, 25) {
         if rng.chance(1, 2) {
             *rng.pick(&[63, 64, 65, 66, 95, 96, 127, 128, 129, 130, 160, 191, 192, 193, 256, 257, 300])
@@ -65,7 +74,45 @@ pub fn draw_p(rng: &mut Rng) -> f64 {
 }
 
 /// Two operands for AdjacencyMap::union with related vertex sets.
+/// Two contiguous operands 0..n1 and 0..n2 (n1 < n2) sized so that, if the merged key sequence of n1 + n2
+/// entries is cut into `t` pieces at k*(n1+n2)/t, one cut falls exactly between the two copies of the last
+/// key of the smaller operand (where one input of a merge is exhausted and a shared key straddles the cut).
+/// Returns the pair and the `t` it was sized for.
+pub fn draw_aligned_pair(rng: &mut Rng, max: usize) -> Option<(Dg, Dg, usize)> {
+    for _ in 0..40 {
+        let t = rng.range(2, 16);
+        let total = if rng.chance(1, 4) { rng.range(512, 1800) } else { rng.range(2 * t, (4 * max).max(2 * t + 2)) };
+        let k = rng.range(1, t - 1);
+        let c = k * total / t;
+        if c % 2 == 0 {
+            continue;
+        }
+        let n1 = (c + 1) / 2;
+        if n1 == 0 || total <= 2 * n1 {
+            continue;
+        }
+        let n2 = total - n1;
+        // sparse when large; the last shared vertex gets out-arcs in both operands so that losing either
+        // copy is visible
+        let p = if total > 400 { 3 } else { 200 };
+        let mut d = random_dg(rng, n1, p);
+        let mut e = random_dg(rng, n2, p);
+        if n1 >= 2 {
+            let _ = d.a.insert((n1 - 1, 0));
+            let _ = e.a.insert((n1 - 1, n1 - 2));
+            let _ = d.a.insert((0, n1 - 1));
+        }
+        return Some(if rng.chance(1, 2) { (d, e, t) } else { (e, d, t) });
+    }
+    None
+}
+
 pub fn draw_map_pair(rng: &mut Rng, max: usize) -> (Dg, Dg) {
+    if rng.chance(1, 8) {
+        if let Some((d, e, _)) = draw_aligned_pair(rng, max) {
+            return (d, e);
+        }
+    }
     let n1 = draw_order_tail(rng, max);
     let v1 = random_vertex_set(rng, n1, 3 * max);
     let v2 = match rng.below(6) {
@@ -101,6 +148,10 @@ pub fn draw_map_pair(rng: &mut Rng, max: usize) -> (Dg, Dg) {
         p1 = p1.min(40);
         p2 = p2.min(40);
     }
+    if v1.len() + v2.len() > 500 {
+        p1 = p1.min(3);
+        p2 = p2.min(3);
+    }
     let d = random_dg_on(rng, &v1, p1);
     let e = random_dg_on(rng, &v2, p2);
     (d, e)
@@ -110,7 +161,7 @@ pub fn draw_map_pair(rng: &mut Rng, max: usize) -> (Dg, Dg) {
 pub fn draw_dg(rng: &mut Rng, max: usize) -> Dg {
     let n = draw_order_tail(rng, max);
     // large digraphs are kept sparse or very dense so that the quadratic operations stay cheap
-    let p = if n > 130 { *rng.pick(&[5, 20, 60]) } else { draw_density(rng) };
+    let p = if n > 400 { *rng.pick(&[1, 2, 5]) } else if n > 130 { *rng.pick(&[5, 20, 60]) } else { draw_density(rng) };
     random_dg(rng, n, p)
 }
 
@@ -122,11 +173,18 @@ pub fn draw_top(rng: &mut Rng, tier: Tier, kind: usize) -> TOp {
     // large orders are quadratic in cost: keep them rare
     let max = if rng.chance(1, 6) { max } else { max.min(36) };
     match kind {
-        0 => TOp::ListComplement { d: draw_dg(rng, max) },
-        1 => TOp::ListComplete { order: draw_order_tail(rng, max) },
+        0 => {
+            // the complement of a sparse giant is dense: cap the order
+            let mut d = draw_dg(rng, max);
+            if d.order() > 300 {
+                d = draw_dg(rng, max.min(36));
+            }
+            TOp::ListComplement { d }
+        }
+        1 => TOp::ListComplete { order: draw_order_tail(rng, max).min(400) },
         2 => TOp::ListDegreeSequence { d: draw_dg(rng, max) },
         3 => {
-            let n = draw_order_tail(rng, max).min(130);
+            let n = draw_order_tail(rng, max).min(260);
             let d = match rng.below(6) {
                 0 => {
                     let p = draw_density(rng).max(500);
@@ -144,7 +202,13 @@ pub fn draw_top(rng: &mut Rng, tier: Tier, kind: usize) -> TOp {
                 1 => rng.range(1, n1),
                 _ => draw_order_tail(rng, max),
             };
-            let (p1, p2) = if n1.max(n2) > 130 { (20, 40) } else { (draw_density(rng), draw_density(rng)) };
+            let (p1, p2) = if n1.max(n2) > 400 {
+                (2, 3)
+            } else if n1.max(n2) > 130 {
+                (20, 40)
+            } else {
+                (draw_density(rng), draw_density(rng))
+            };
             TOp::ListUnion { d: random_dg(rng, n1, p1), e: random_dg(rng, n2, p2) }
         }
         5 => {
@@ -153,11 +217,11 @@ pub fn draw_top(rng: &mut Rng, tier: Tier, kind: usize) -> TOp {
         }
         6 => {
             let p = draw_p(rng);
-            let order = draw_order_tail(rng, max).min(200);
+            let order = draw_order_tail(rng, max).min(600);
             TOp::MapErdosRenyi { order, p_bits: p.to_bits(), p: format!("{p:?}"), seed: draw_seed(rng) }
         }
         _ => {
-            let order = draw_order_tail(rng, max).min(200);
+            let order = draw_order_tail(rng, max).min(600);
             TOp::MapRandomTournament { order, seed: draw_seed(rng) }
         }
     }
@@ -275,7 +339,9 @@ impl Lane for C17 {
         let kind = rng.below(8);
         let op = draw_top(rng, tier, kind);
         let mut confs = draw_confs(rng, tier, op.rows());
-        if op.rows() > 100 {
+        if op.rows() > 400 {
+            confs = confs.into_iter().step_by(5).collect();
+        } else if op.rows() > 100 {
             // large inputs are there for size thresholds, not for schedule variety: every third configuration
             confs = confs.into_iter().step_by(3).collect();
         }
